@@ -583,6 +583,13 @@ theorem own_step {env : Env} (he : EnvOk env) {s : St} (hi : Inv env s) (ho : Ow
     cases h : structOf s b kept with
     | none => exact ho
     | some r => exact doKeep_own (structOf_spec hi b kept r h).1 (structOf_own ho b kept r h) r.2 b key
+  | other b => exact ho
+  | applyBad b key =>
+    obtain ⟨g1, _, g3, g4⟩ := getMocker_own hi ho.own b key
+    exact ⟨g1, fun b' key' id hh => by
+      have hh' : (getMocker s b key).1.handle b' key' = some id := hh
+      rw [g4] at hh'
+      exact Nat.lt_of_lt_of_le (ho.hnd b' key' id hh') g3⟩
 
 /-! ### success of `replaceFunc` means the NOP-sentinel test passed on pristine bytes, so the jump differs from them -/
 
@@ -790,6 +797,8 @@ theorem step_nStubs_mono (env : Env) (s : St) (op : Op) : s.nStubs ≤ (step env
       simp only []
       show s.nStubs ≤ (getMocker r.1 r.2 key).1.nStubs
       rw [getMocker_nStubs, structOf_nStubs s b kept r h]; exact Nat.le_refl _
+  | other b => exact Nat.le_refl _
+  | applyBad b key => exact Nat.le_of_eq (getMocker_nStubs s b key).symm
 
 /-! ### what `Canceled()` answers for a struct mocker is never changed -/
 
@@ -884,5 +893,7 @@ theorem step_scanceled (env : Env) (s : St) (op : Op) : (step env s op).1.scance
       simp only []
       show (getMocker r.1 r.2 key).1.scanceled = _
       rw [getMocker_scanceled, structOf_scanceled s b kept r h]
+  | other b => rfl
+  | applyBad b key => exact getMocker_scanceled s b key
 
 end C02L
